@@ -150,6 +150,12 @@ def programs(tier: str) -> list[dict]:
                   "calls": [{"op": "sin", "a": 1}, {"op": "sum", "a": 2, "axis": 1},
                             {"op": "mul", "a": 2, "b": {"py": "float", "v": "2.0"}}],
                   "outs": {"out0": 2, "out1": 3, "out2": 4}, "nvar": 5})
+    # arithmetic on booleans consumed by wider arithmetic: stored (a bool temporary) and
+    # inlined (a C expression over 0/1 integers) variants must agree
+    for p in progspace.fam_boolarith():
+        p["outs"] = {("out0" if k == "out" else k): v for k, v in p["outs"].items()}
+        p["nvar"] = 2
+        progs.append(p)
     # ... and with reductions INLINED where their bounds are affine (cexec qa_shim):
     # the implementation tags decide much more there
     return c01.with_inlined_reductions(progs)
